@@ -10,6 +10,7 @@ pub mod bddutil;
 pub mod c13;
 pub mod c14;
 pub mod c15;
+pub mod c19;
 pub mod c09;
 
 pub struct Prop {
@@ -28,5 +29,6 @@ pub fn registry() -> Vec<Prop> {
         Prop { id: "C13", run: c13::run, replay: c13::replay },
         Prop { id: "C14", run: c14::run, replay: c14::replay },
         Prop { id: "C15", run: c15::run, replay: c15::replay },
+        Prop { id: "C19", run: c19::run, replay: c19::replay },
     ]
 }
